@@ -14,12 +14,22 @@ EXTENDS Naturals, Sequences, Json, IOUtils, TLC, SequencesExt
 Trace == ndJsonDeserialize(IOEnv.VERIF_TRACE)
 OutFile == IOEnv.VERIF_OUT
 
-Reasons(e) ==
+(* A second kind of event, life{id, prov, start_context_ended, changes_after_start, applied_after_start}: *)
+(* the provider was started with a context that ended when the start phase was over (as the application   *)
+(* does it), then its sources changed: every change must still be applied.                                  *)
+LifeReasons(e) ==
+  (IF e.applied_after_start < e.changes_after_start THEN {"change-after-the-start-phase-not-applied"} ELSE {})
+  \cup (IF e.applied_after_start > e.changes_after_start THEN {"more-applied-than-changed"} ELSE {})
+  \cup (IF ~e.start_context_ended \/ e.changes_after_start = 0 THEN {"scenario-without-changes-after-the-start"} ELSE {})
+
+SchedReasons(e) ==
   (IF e.max_polls_at_once > 1 THEN {"polls-of-one-source-overlap"} ELSE {})
   \cup (IF e.most_creations > 1 THEN {"unchanged-rule-set-created-more-than-once"} ELSE {})
   \cup (IF e.max_callbacks_at_once > 1 THEN {"processor-called-by-two-polls-at-once"} ELSE {})
   \cup (IF e.polls < 2 THEN {"scenario-without-repeated-polls"} ELSE {})
   \cup (IF e.sources # e.sets THEN {"not-every-rule-set-created"} ELSE {})
+
+Reasons(e) == IF "kind" \in DOMAIN e /\ e.kind = "life" THEN LifeReasons(e) ELSE SchedReasons(e)
 
 VARIABLES l, bad
 
